@@ -406,8 +406,8 @@ func runC12(c *fw.Ctx) {
 		}
 		r := c.Rng(id)
 		cs := genCase(r, scfg)
-		for k := r.Intn(3); k > 0; k-- {
-			addMetaOrigin(cs, r.Intn(8))
+		for k := r.Intn(4); k > 0; k-- {
+			addMetaOrigin(cs, r.Intn(9))
 		}
 		txt := gen.PrintCanonical(cs.Script).Text
 		po := real.Parse(txt)
@@ -417,6 +417,20 @@ func runC12(c *fw.Ctx) {
 		}
 		clean, _ := real.RunCase(po.Result, cs, real.Exact)
 		c.Eval()
+		// without any injected fault the error (if any) must name the actual cause: compared with
+		// the reference semantics' verdict on the same inputs
+		if mod := model.Run(cs.Script, real.ToInput(cs)); mod.Undetermined == "" && !clean.Panicked {
+			got := clean.Class
+			want := ""
+			if mod.Fail != nil {
+				want = mod.Fail.Kind
+			}
+			if got != want {
+				c.Violation("wrong-cause:"+got, fmt.Sprintf("without any store fault the run gives %s (%v); the reference semantics says %q", clean.Summary(), clean.Err, want), cs.Describe())
+				return
+			}
+			c.Count("fault_free_runs_agreeing_with_reference", 1)
+		}
 		N := len(clean.Calls)
 		for k := 1; k <= N; k++ {
 			st := real.NewStore(real.Exact, cs.Balances, cs.Meta)
